@@ -97,6 +97,14 @@ def periodic(ctx, dim, mode_no):
     _periodic(ctx, srf, dim, per)
 
 
+@contract(P, "Fourier/periodic-along-main-axes[thorough]",
+          params=[{"dim": 3, "mode_no": [4, 2, 2]}, {"dim": 2, "mode_no": [4, 4]}, {"dim": 1, "mode_no": [8]}],
+          functions=FN, timeout=60, nsamples=2, search=20, tiers=("thorough",))
+def periodic_thorough(ctx, dim, mode_no):
+    mod, s, per, srf = _mk(ctx, dim, mode_no)
+    _periodic(ctx, srf, dim, per)
+
+
 @contract(P, "Fourier.update/periodic-for-new-settings",
           params=[{"dim": d, "what": w} for d in (1, 2) for w in ("period", "mode_no", "anis", "len_scale")
                   if not (d == 1 and w == "anis")],
